@@ -6,7 +6,7 @@ from pathlib import Path
 from ..common import Report, load_known_findings
 from ..ch import runner as ch
 
-REPLAYS = Path(__file__).resolve().parents[2] / "replays"
+from ..common import REPLAYS  # noqa: E402
 
 CH_ASSUMPTIONS = [
     "CrossHair 0.0.110 explores the harness per path with z3 under a time budget; only 'Confirmed over all paths' counts as discharged, "
